@@ -38,6 +38,11 @@ theorem incrN_tooShort (n d : Nat) : Res.incrN n (.trav (.tooShort d)) = .trav (
   | zero => rfl
   | succ n ih => simp [Res.incrN, ih, Res.incr, Trav.incr]; omega
 
+theorem incrN_inner (n d : Nat) : Res.incrN n (.inner d) = .inner (d + n) := by
+  induction n with
+  | zero => rfl
+  | succ n ih => simp [Res.incrN, ih, Res.incr]; omega
+
 theorem incrN_succ' (n : Nat) (r : Res) : Res.incrN (n + 1) r = Res.incrN n r.incr := by
   induction n with
   | zero => rfl
